@@ -628,3 +628,98 @@ PROPS['C16'] = dict(streams=[dict(stream='abort', custom=custom_abort,
                     side_obligations=c16_side, facts_view=lambda f: dict((k, (f.get('protocol') or {}).get(k)) for k in ['guard', 'max_refcount', 'abort_std', 'abort_nostd', 'inc_ord']),
                     assumptions=['a panic raised while a panic is already unwinding aborts the process (Rust runtime behaviour; exercised by the no_std children)',
                                  'the count is preset by writing to the address the verification hook reports for the counter'])
+
+
+# ============================================================================
+# cmp stream (C14)
+# ============================================================================
+import itertools
+def all_slices(maxlen):
+    out = [[]]
+    for n in range(1, maxlen + 1):
+        out += [list(t) for t in itertools.product(range(3), repeat=n)]
+    return out
+
+def gen_cmp(tier, rng):
+    cases = []; n = 0
+    def add(op):
+        nonlocal n
+        cases.append(('K%d' % n, [op])); n += 1
+    for cls in range(3):
+        # exhaustive: Arc / OffsetArc / ArcBorrow over all value pairs, same and distinct allocations
+        for kind in range(3):
+            for x in range(3):
+                add([cls, kind, 1, x, x])
+                for y in range(3): add([cls, kind, 0, x, y])
+        for xv in range(2):
+            for x in range(3):
+                add([cls, 3, 1, xv, x, xv, x])
+                for yv in range(2):
+                    for y in range(3): add([cls, 3, 0, xv, x, yv, y])
+    vals = [(h, s) for h in range(3) for s in all_slices(3)]     # 3 x 40 = 120 header-slice values
+    pairs = [(a, b) for a in vals for b in vals]
+    if tier != 'thorough':
+        pairs = rng.sample(pairs, 700)
+    for (ha, sa), (hb, sb) in pairs:
+        for cls in range(3):
+            for kind in (4, 5, 6):
+                same = 1 if (rng.random() < 0.08) else 0
+                ra = len(sa); rb = len(sb)
+                if kind == 5 and rng.random() < 0.5:
+                    ra = rng.choice([len(sa), len(sa) + 1, 0, 5]); rb = rng.choice([len(sb), len(sb) + 2, 1, 5])
+                add([cls, kind, same, ha, ra, len(sa)] + sa + [hb, rb, len(sb)] + sb)
+    # the F2 witness and malformed cases
+    add([0, 5, 0, 1, 5, 2, 1, 2, 1, 2, 2, 1, 2]); add([0, 5, 0, 1, 2, 2, 1, 2, 1, 5, 2, 1, 2])
+    add([0, 0, 0, 7, 1]); add([5, 0, 0, 1, 1]); add([0, 9, 0, 1, 1]); add([0, 4, 0, 1, 1, 1])
+    return cases
+
+def oracle_cmp(ops, io, ctx):
+    """C14 on the implementation's own answers, for the lawful classes (0 and 1): consistency of the operators"""
+    op = ops[0]; o = io[0]
+    if op[0] in (0, 1) and op[1] in (1, 2, 3) and len(o) >= 2 and o[0] <= 1:
+        # handles of plain values: the answer must be the values' own (same allocation counts as equal for ArcBorrow/ArcUnion)
+        same = op[2] != 0
+        if op[1] == 3:
+            xv, x, yv, y = op[3:7]
+            if same: yv, y = xv, x
+            veq = (xv == yv) and x == y and not (op[0] == 1 and x == 2)
+            want = 1 if ((same and xv == yv) or veq) else 0
+            if o[0] != want: return 'ArcUnion == answers %d for %s(%d) vs %s(%d)%s; the values say %d' % (o[0], 'First' if xv == 0 else 'Second', x, 'First' if yv == 0 else 'Second', y, ' (same allocation)' if same else '', want)
+            if o[1] != 1: return 'ArcUnion Debug does not print the value'
+        else:
+            x, y = op[3], (op[3] if same else op[4])
+            veq = x == y and not (op[0] == 1 and x == 2)
+            want = 1 if (veq or (same and op[1] == 2)) else 0
+            if o[0] != want: return '%s == answers %d for values %d and %d%s; the values say %d' % ('OffsetArc' if op[1] == 1 else 'ArcBorrow', o[0], x, y, ' (same allocation)' if same else '', want)
+            if o[2] != 1: return '%s Debug does not print the value' % ('OffsetArc' if op[1] == 1 else 'ArcBorrow')
+        return None
+    if len(o) < 7 or op[0] not in (0, 1) or op[1] not in (0, 4, 5, 6): return None
+    eq, ne, lt, le, gt, ge, pc = o[:7]
+    same = op[2] != 0
+    if ne != 1 - eq: return '!= is not the negation of == (%d, %d)' % (eq, ne)
+    nan_involved = op[0] == 1 and 2 in op[3:]
+    if not (same and nan_involved):
+        if (eq == 1) != (pc == 2): return '== is %d but partial_cmp is %s' % (eq, ['None', 'Less', 'Equal', 'Greater'][pc])
+    if lt != (1 if pc == 1 else 0) or gt != (1 if pc == 3 else 0) or le != (1 if pc in (1, 2) else 0) or ge != (1 if pc in (2, 3) else 0):
+        return 'relational operators (%d %d %d %d) disagree with partial_cmp = %s' % (lt, le, gt, ge, ['None', 'Less', 'Equal', 'Greater'][pc])
+    if op[0] == 0 and len(o) >= 10:
+        cm = o[8] if op[1] in (4, 5, 6) else o[10]
+        if cm != pc: return 'cmp (%d) disagrees with partial_cmp (%d)' % (cm, pc)
+        if op[1] in (4, 5, 6) and eq == 1 and o[9] != 1: return 'equal values hash differently'
+    return None
+
+CMP_STREAM = dict(stream='cmp', gen=gen_cmp, oracle=oracle_cmp,
+                  nontrivial=lambda ops, io: ops[0][1] >= 3 or ops[0][0] >= 1 or ops[0][2] == 1,
+                  rule='exhaustive: Arc/OffsetArc/ArcBorrow/ArcUnion over all pairs of a 3-letter alphabet x same/distinct allocation x 3 payload classes (total order, float with NaN, deliberately unlawful); header-slice values: headers x slices up to length 3 over 3 letters (120 values) in ThinArc, fat Arc with recorded length equal and unequal, and derived HeaderSlice: all 14400 pairs in thorough, 700 sampled pairs in quick, x 3 classes x 3 kinds; observation: == != < <= > >= partial_cmp cmp, hash/Debug/Display agreement with the plain value, HashMap/BTreeMap lookups through Borrow; non-trivial = not (Arc of a totally ordered payload in distinct allocations); distinct = distinct tuples',
+                  cfgs=dict(quick=[('cfg_default', 'debug')], thorough=[('cfg_default', 'debug'), ('cfg_default', 'release'), ('cfg_all', 'release')]))
+
+def c14_side(facts):
+    C = facts.get('cmp') or {}
+    rows = C.get('rows', [])
+    unknown = [r for r in rows if 'Unknown' in r[2]]
+    return [('every_comparison_impl_classified', len(rows) == 28 and not unknown, '%d methods, unclassified: %s' % (len(rows), unknown))]
+
+PROPS['C14'] = dict(streams=[CMP_STREAM], side_obligations=c14_side,
+                    facts_view=lambda f: dict(impls=(f.get('cmp') or {}).get('rows')),
+                    assumptions=['what #[derive(PartialEq, PartialOrd, Ord, Hash, Debug)] and the slice/tuple impls of core expand to is modelled in Cmp.v / CmpCases.v (field-wise, lexicographic, length-prefixed hashing) and validated by the cmp stream',
+                                 'ArcUnion Debug prints the value under the variant name (First(..)/Second(..)); the property is read as requiring the value part to be the payload\'s Debug'])
